@@ -20,6 +20,10 @@ def rand_alignment(rng, thorough=False):
                 nm = base + nm
         if mode > 0.9:
             nm = rng.choice(["-", ".", "a|b", "123", "_", "--", "x.y|z-w"]) + ("" if rng.random() < 0.5 else str(len(names)))
+        if mode > 0.8 and mode <= 0.9:
+            # names made of the words the format sniffer and the readers look for (all within the allowed name characters)
+            nm = rng.choice(["CLUSTAL", "CLUSTALW_ref", "sp|Q1|CLUSTAL_x", "CLUSTAL.O", "MSF", "PileUp", "Name", "Len", "Check", "Weight", "Kalign", "kalign",
+                             "multiple", "alignment", "GDC", "Type", "N", "P", ".."]) + ("" if rng.random() < 0.4 else "_%d" % len(names))
         if nm in names or nm.startswith(">"):
             continue
         names.append(nm)
@@ -32,6 +36,11 @@ def rand_alignment(rng, thorough=False):
         if rng.random() < 0.3:
             r = [c.lower() if rng.random() < 0.5 else c for c in r]
         rows.append("".join(r))
+    if kind == "protein" and rng.random() < 0.08 and width >= 10:
+        # residues that spell a format keyword (all are amino-acid letters)
+        word = rng.choice(["CLUSTALW", "CLUSTAL", "MSF", "NAME", "CHECK", "PILEUP"])[:width]
+        j, k0 = rng.randrange(nrows), rng.randrange(0, width - len(word) + 1)
+        rows[j] = rows[j][:k0] + word + rows[j][k0 + len(word):]
     # no all-gap column (C01)
     for k in range(width):
         if all(r[k] == "-" for r in rows):
